@@ -50,6 +50,8 @@ pub struct TrackState {
 
 thread_local! {
     static TS: RefCell<TrackState> = RefCell::new(TrackState::default());
+    /// calls of `Mem::as_mut_ptr` on instrumented backends (a read-only operation must not ask for the write pointer)
+    pub static AS_MUT_CALLS: std::cell::Cell<u64> = const { std::cell::Cell::new(0) };
 }
 
 pub fn with_ts<R>(f: impl FnOnce(&mut TrackState) -> R) -> R {
@@ -236,7 +238,7 @@ impl TrackMem {
 
 impl Mem for TrackMem {
     #[inline] fn as_ptr(&self) -> *const u8 { self.ptr }
-    #[inline] fn as_mut_ptr(&mut self) -> *mut u8 { self.ptr }
+    #[inline] fn as_mut_ptr(&mut self) -> *mut u8 { AS_MUT_CALLS.with(|c| c.set(c.get() + 1)); self.ptr }
     #[inline] fn element_layout(&self) -> Layout { self.layout }
     #[inline] fn size(&self) -> usize { self.cap }
     fn expand(&mut self, additional: usize) {
